@@ -184,13 +184,15 @@ def r3(ctx):
     f = ctx.fn(f"{SCI}.SparseDrugComboInteractionMCMCSample.predict_viability")
     lc = [n for n in walk_own(f.node) if isinstance(n, ast.ListComp)]
     ok = False
-    if len(lc) == 1 and isinstance(lc[0].elt, ast.BinOp) and isinstance(lc[0].elt.op, ast.Mult):
+    fenv = single_defs(f.node)
+    if len(lc) == 1 and isinstance(lc[0].elt, ast.BinOp) and isinstance(lc[0].elt.op, ast.Mult) and len(lc[0].generators) == 1 and not lc[0].generators[0].ifs:
         gen = lc[0].generators[0]
         tn = [U(t) for t in gen.target.elts] if isinstance(gen.target, ast.Tuple) else []
         data = f.params[1]
-        its = [U(a).replace(" ", "") for a in gen.iter.args] if isinstance(gen.iter, ast.Call) and call_name(gen.iter) == "zip" else []
+        its = [U(inline(a, fenv)).replace(" ", "") for a in gen.iter.args] if isinstance(gen.iter, ast.Call) and call_name(gen.iter) == "zip" else []
         role = dict(zip(tn, its))
-        l, r = U(lc[0].elt.left).replace(" ", ""), U(lc[0].elt.right).replace(" ", "")
+        cenv = {k: v for k, v in fenv.items() if k not in tn}
+        l, r = U(inline(lc[0].elt.left, cenv)).replace(" ", ""), U(inline(lc[0].elt.right, cenv)).replace(" ", "")
         c = [k for k, v in role.items() if v == f"{data}.sample_ids"]
         d0 = [k for k, v in role.items() if v == f"{data}.treatment_ids[:,0]"]
         d1 = [k for k, v in role.items() if v == f"{data}.treatment_ids[:,1]"]
@@ -248,20 +250,26 @@ def r4(ctx):
 def r5(ctx):
     for q in (f"{SC}.predict", f"{SC}.predict_single_drug"):
         f = ctx.fn(q)
-        env = single_defs(f.node)
-        par = enclosing_map(f.node)
-        vr = None
-        for r in returns(f.node):
-            p = par.get(r)
-            if isinstance(p, ast.If) and U(p.test) == "viability" and r in p.body:
-                vr = r
-        ctx.need(vr is not None, f"{f.site()}: viability return not found")
-        mu = [U(r.value) for r in returns(f.node) if r is not vr]
+        from engine.astutil import path_returns
+        paths = path_returns(f.node)
+        ctx.need(paths is not None, f"{f.site()}: body is outside the assignment/if fragment the path enumeration handles")
+        vr, mu = [], []
+        for conds, ret in paths:
+            pol = None
+            for t, p_ in conds:
+                tt = U(t).replace(" ", "")
+                if tt == "viability":
+                    pol = p_
+                elif tt == "notviability":
+                    pol = not p_
+            (vr if pol else mu).append(ret) if pol is not None else None
+        ctx.need(len(vr) == 1 and len(mu) == 1 and vr[0] is not None and mu[0] is not None, f"{f.site()}: viability return not found")
         N = Norm(strict=False)
-        want = N.key(parse_expr(f"np.clip(expit({mu[0]}), a_min=0.01, a_max=0.99)")) if mu else None
-        vexpr = inline_calls(inline(vr.value, {k: v for k, v in env.items() if k != (mu[0] if mu else None)}), ctx.R, f.mod)
-        ctx.check("R5", f"{f.site()}::viability", mu and N.key(vexpr) == want, "viability = clip(expit(Mu), 0.01, 0.99)",
-                  f"viability is `{U(vexpr)}`, not np.clip(expit({mu[0] if mu else 'Mu'}), 0.01, 0.99)")
+        want = N.key(ast.Call(func=parse_expr("np.clip"), args=[ast.Call(func=ast.Name(id="expit", ctx=ast.Load()), args=[mu[0]], keywords=[])],
+                              keywords=[ast.keyword(arg="a_min", value=ast.Constant(value=0.01)), ast.keyword(arg="a_max", value=ast.Constant(value=0.99))]))
+        vexpr = inline_calls(vr[0], ctx.R, f.mod)
+        ctx.check("R5", f"{f.site()}::viability", N.key(vexpr) == want, "viability = clip(expit(Mu), 0.01, 0.99)",
+                  f"viability is `{U(vexpr)[:200]}`, not np.clip(expit(<the mean return>), 0.01, 0.99)")
     for cq in (f"{SC}.SparseDrugComboMCMCSample", f"{SCI}.SparseDrugComboInteractionMCMCSample"):
         f = ctx.fn(f"{cq}.predict_conditional_variance")
         data = f.params[1]
@@ -283,7 +291,8 @@ def r6(ctx):
         screen, thetas = f.params[0], f.params[1]
         loops = [n for n in walk_own(f.node) if isinstance(n, ast.For)]
         problems = []
-        if len(loops) != 1 or U(loops[0].iter) != f"range({thetas}.n_thetas)" or not isinstance(loops[0].target, ast.Name):
+        fenv = single_defs(f.node)
+        if len(loops) != 1 or U(inline(loops[0].iter, fenv)) != f"range({thetas}.n_thetas)" or not isinstance(loops[0].target, ast.Name):
             # one-level helper: return _helper(screen, thetas, "<method>")
             r = returns(f.node)
             if len(r) == 1 and isinstance(r[0].value, ast.Call) or (len(r) == 1 and isinstance(r[0].value, ast.Attribute)):
@@ -316,14 +325,17 @@ def r6(ctx):
                 problems.append(f"predicts on `{[U(a) for a in c.args]}`, not `{screen}`")
         if fn.endswith("_all") and fn != "predict_variance_all":
             st = [n for n in walk_own(loop) if isinstance(n, ast.Assign) and isinstance(n.targets[0], ast.Subscript)]
-            sl0 = st[0].targets[0].slice if len(st) == 1 else None
+            tgt0 = st[0].targets[0] if len(st) == 1 else None
+            if tgt0 is not None and isinstance(tgt0.value, ast.Name) and isinstance(lenv.get(tgt0.value.id), ast.Subscript) and U(tgt0.slice) == ":":
+                tgt0 = lenv[tgt0.value.id]       # row = result[i, :]; row[:] = ...   writes through the view
+            sl0 = tgt0.slice if tgt0 is not None else None
             first = sl0.elts[0] if isinstance(sl0, ast.Tuple) else sl0
             if sl0 is None or U(first) != i:
                 problems.append("row index of the stacked result is not the sample index")
         if fn.endswith("_avg"):
             r = returns(f.node)
             acc = [n for n in walk_own(loop) if isinstance(n, (ast.Assign, ast.AugAssign))]
-            if len(r) != 1 or not (isinstance(r[0].value, ast.BinOp) and isinstance(r[0].value.op, ast.Div) and U(r[0].value.right) == f"{thetas}.n_thetas"):
+            if len(r) != 1 or not (isinstance(r[0].value, ast.BinOp) and isinstance(r[0].value.op, ast.Div) and U(inline(r[0].value.right, fenv)) == f"{thetas}.n_thetas"):
                 problems.append(f"average returns `{U(r[0].value) if r else None}`, not sum / {thetas}.n_thetas")
             else:
                 accn = U(r[0].value.left)
